@@ -220,6 +220,13 @@ func (g *FuncGen) lookupName(env *Env, name string) (Val, bool) {
 			if cst, ok := obj.(*types.Const); ok {
 				return g.constObj(cst), true
 			}
+			// package-level variable of a scalar/reference type: its current value (read from its cell)
+			if gv, ok := obj.(*types.Var); ok && !isStructType(gv.Type()) && !isArrayType(gv.Type()) {
+				c := g.c
+				ref := c.constant("glob_"+sanitize(p.Name()+"."+name), SInt)
+				cl := c.cellClass(gv.Type())
+				return Val{T: fmt.Sprintf("(select %s %s)", g.heapOf(env.cur, cl), ref), S: c.sortOf(gv.Type()), GT: gv.Type()}, true
+			}
 		}
 	}
 	return Val{}, false
